@@ -93,6 +93,7 @@ Definition cstep (c : cheap) (o : op) : cheap :=
   | ORemove x src dst => cfresh c dst (filter (fun y => negb (Z.eqb x y)) (L src))
   | OMapcar k src dst => cfresh c dst (map (fun y => (y + k)%Z) (L src))
   | ORemoveIf p n fe src dst => cfresh c dst (remove_if p n fe (L src))
+  | ORemoveDup fe s e src dst => cfresh c dst (remove_dup fe s e (L src))      (* new cells, also for delete-duplicates *)
   | ONconc a b dst =>
       match L a, L b with
       | [], [] => cset c dst None
@@ -119,7 +120,7 @@ Definition dst_of (o : op) : var :=
   match o with
   | OList _ d | OCons _ _ d | OListStar _ _ d | OCdr _ d | ONthcdr _ _ d | OMember _ _ d | OLast _ d | OButlast _ d
   | OSubseq _ _ _ d | OCopy _ d | OReverse _ d | OAppend _ _ d | OAdd _ _ d | ONreverse _ d | ONconc _ _ d
-  | OSort _ d | ORemove _ _ d | OMapcar _ _ d | ORemoveIf _ _ _ _ d | ORplaca _ _ d | ORplacd _ _ d => d
+  | OSort _ d | ORemove _ _ d | OMapcar _ _ d | ORemoveIf _ _ _ _ d | ORemoveDup _ _ _ _ d | ORplaca _ _ d | ORplacd _ _ d => d
   | OPush _ v | OPop v | OSetcar v _ | OSetnth v _ _ | OSetelt v _ _ => v
   end.
 Fixpoint zlist_eqb (a b : list Z) : bool :=
